@@ -31,7 +31,12 @@ IsF(e) == e.ty = "f64"
 NoDivision(op) == op \notin {"div", "div_r", "div_assign", "div_assign_r"}
 RMatch(e, got, want) == IF IsF(e) THEN ((NoDivision(e.op) /\ Dyadic(want)) => RSame(got, want)) ELSE RSame(got, want)
 CMatch(e, got, want) == RMatch(e, got.re, want.re) /\ RMatch(e, got.im, want.im)
-UnitsOK(e) == IsF(e) => e.units <= UnitsGuard
+\* componentwise: each component of an f64 sum / product / quotient against its exactly rounded value in units of
+\* eps * S, S the magnitude sum of the textbook formula (|ac|+|bd| resp. |ad|+|bc|, over |w|^2 for quotients; the
+\* exact component for single-rounding operations).  A-priori bounds: 1 unit (product), 2.5 units (quotient); factor > 8.
+CompGuard == 24
+CompOK(e) == e.cu_re <= CompGuard /\ e.cu_im <= CompGuard
+UnitsOK(e) == IsF(e) => (e.units <= UnitsGuard /\ (e.op \notin {"neg", "conj", "abs_sqr"} => CompOK(e)))
 HasOperands(e) == ~IsF(e) \/ e.exact
 
 BinOps == {"add", "sub", "mul", "div"}
@@ -66,7 +71,7 @@ Explained(e) ==
          ELSE /\ ~e.panic
               /\ HasOperands(e) => (CMatch(e, e.r, AsgRun(e.op, e.z, e.w)) /\ CMatch(e, e.rb, Binary(e.op, e.z, e.w)))
               /\ ~IsF(e) => CSame(e.r, e.rb)
-              /\ IsF(e) => (e.ba = e.bb /\ e.units <= UnitsGuard)
+              /\ IsF(e) => (e.ba = e.bb /\ e.units <= UnitsGuard /\ CompOK(e))
     \* zero() and one() and their identity laws: z+0, 0+z, z-0, z*1, 1*z, z/1 all return z
     [] e.op = "ident" ->
          /\ ~e.panic
